@@ -40,8 +40,7 @@ RULE = ("inputs of the C01 generator (random force fields in .ff/.itp syntax x c
         "residues, resid start 1/7/28/100, from_itp copies of a multi-residue block, -mods) x one random "
         "transformation each of {relabel, insertion, edges, definitions, history, repeat}; distinct = "
         "(input, transformation); non-trivial when the graph has >= 2 residues")
-C13_FINDINGS = ("fragments-out-of-insertion-order", "fragment-in-ring", "link-multiterm-file-order",
-                "ff-itp-file-order")
+C13_FINDINGS = ("link-multiterm-file-order", "ff-itp-file-order")
 KINDS = ["relabel", "insertion", "edges", "definitions", "history", "repeat"]
 SECT_ARITY = dict(gen.SECTIONS, exclusions=None)
 
@@ -142,9 +141,6 @@ def t_relabel(rng, case, findings):
     graph = case["graph"]
     keys = [n[0] for n in graph["nodes"]]
     mode = rng.choice(["ints", "perm", "strings", "shift"])
-    if multi_runs(graph) >= 2 and "fragments-out-of-insertion-order" not in findings:
-        # the .json reader orders nodes by key: keep the key order (known finding otherwise)
-        mode = "shift"
     if mode == "perm" and all(isinstance(k, int) for k in keys):
         new = list(keys)
         rng.shuffle(new)
@@ -166,8 +162,6 @@ def t_relabel(rng, case, findings):
 
 def t_insertion(rng, case, findings):
     graph = case["graph"]
-    if multi_runs(graph) >= 2 and "fragments-out-of-insertion-order" not in findings:
-        return t_edges(rng, case, findings)
     nodes = list(graph["nodes"])
     rng.shuffle(nodes)
     return dict(case, graph=dict(graph, nodes=nodes)), "insertion"
@@ -269,7 +263,7 @@ def run_one(ctx, rng, case, kind, findings, pending):
         record["model"] = [model_requests(case, base_out), model_requests(variant, var_out)]
     elif kind == "history":
         # 0-3 other calls first, all in one temp directory so that nothing they queued is lost
-        others = [c01.make_case(rng, findings=rng.choice([(), ("mods-without-termini",), ("fragment-in-ring",)]))
+        others = [c01.make_case(rng, findings=rng.choice([(), ("resid-start-0",), ("dup-key-in-block",)]))
                   for _ in range(rng.randint(1, 3))]
         for other in others:
             real.run_gen_params(other["files"], other["graph"], other["mods"], name="other")
@@ -410,7 +404,7 @@ def run(ctx):
         "residue ids are fixed by the input (the statement: 'residue ids fixed'); pairwise distinct, contiguous",
         "definitions are non-conflicting: distinct block / modification names; links keep their relative order when "
         "two of them write the same interaction key with different parameters",
-        "known-finding shapes (fragments-out-of-insertion-order, fragment-in-ring, see notes/C13_findings.md) are "
+        "known-finding shapes (link-multiterm-file-order, ff-itp-file-order, see notes/C13_findings.md) are "
         "generated only when listed in known_findings.txt or VERIF_C01_FINDINGS",
     ]
     source_anchor(ctx)
@@ -450,15 +444,14 @@ def run(ctx):
         fspecs, tries = [], 0
         while len(fspecs) < ctx.budget(30 if shape == "ff-itp-file-order" else 12, 80) and tries < 3000:
             tries += 1
-            case = c01.make_case(sub, findings=(shape,), multires=True if "fragment" in shape else None)
+            case = c01.make_case(sub, findings=(shape,))
             if shape == "link-multiterm-file-order":
                 if shape in c01.features(case):
                     fspecs.append((case, "definitions", sub.randint(0, 10 ** 9)))
             elif shape == "ff-itp-file-order":
                 if len({b["syntax"] for b in case["ff"]["blocks"]}) == 2 and len({b["nrexcl"] for b in case["ff"]["blocks"]}) > 1:
                     fspecs.append((case, "definitions", sub.randint(0, 10 ** 9)))
-            elif multi_runs(case["graph"]) >= 2 or shape in c01.features(case):
-                fspecs.append((case, sub.choice(["relabel", "insertion"]), sub.randint(0, 10 ** 9)))
+
         run_batch(ctx, fspecs, (shape,))
 
 
